@@ -1,5 +1,6 @@
 import os
 import json
+import datetime
 import tempfile
 import hashlib
 from typing import Dict
@@ -9,6 +10,8 @@ from datapackage import Resource
 
 from .dumper_base import DumperBase
 from .formats import CSVFormat, JSONFormat, GeoJSONFormat, ExcelFormat, FileFormat
+from .formats.base import native_constraints, write_constraints
+from ...helpers.extended_json import DATE_F_FORMAT
 
 
 # see https://stackoverflow.com/questions/7150826/how-can-i-get-the-default-file-permissions-in-python
@@ -85,7 +88,13 @@ class FileDumper(DumperBase):
                     if field.get('type') in ['datetime', 'date', 'time']:
                         format = field.pop(self.temporal_format_property, None)
                         if format:
+                            native = native_constraints(field)
                             field['format'] = format
+                            strftime = getattr(datetime, field['type']).strftime
+                            if DATE_F_FORMAT.startswith('%04Y'):
+                                # (as the cells: years before 1000 with four digits)
+                                format = format.replace('%Y', '%04Y')
+                            write_constraints(field, native, lambda value: strftime(value, format))
             self.datapackage.commit()
 
         temp_file = UmaskNamedTemporaryFile(mode='w+', delete=False, encoding='utf-8')
